@@ -132,6 +132,48 @@ CLAIMED['C14'] = dict(
          'correspondence and by the four crash defects found and fixed (AssertionError, UnboundLocalError, IndexError, TypeError of re-association).',
     technique='Lean 4 result-kind theorems (partial) + exception-class correspondence over the enumerated function/argument-shape table')
 
+CLAIMED['C01'] = dict(
+    text='Lean 4 executable model of the front end: a maximal-munch scanner (two modes, word-boundary flags) and a recursive-descent parser '
+         'with one function per grammar rule producing untyped trees, then the proved constructors (build_WT, build_quantOK). The '
+         'implementation is judged against the tree each text was rendered from (through the model build, independent of the model parser) and '
+         'compared with the model parser on the text itself, over random layouts, minimal/full/redundant parentheses, keyword-like names, '
+         'non-canonical numbers and token-level mutations; 0 disagreements with Lark on ~1.5k texts per run including the LALR-merged-lookahead '
+         'corner (`xs[0]!= 3`). Proved so far: keyword recognition is exact-word and boundary-sensitive (isKw_exact). The grammar-level theorems '
+         '(parse_complete / parse_sound / unambiguity, prototyped on a miniature grammar) are not yet ported to the full grammar.',
+    design_ref='DESIGN.md §6 C01',
+    note='PARTIAL: the relation "text renders tree" is realised by the harness renderer, not yet by a Lean inductive relation with a completeness '
+         'proof for the model parser. Lark itself is modelled, not verified.',
+    technique='Lean 4 executable parser model + correspondence on rendered trees and mutated texts (proof of the parser partial)')
+CLAIMED['C06'] = dict(
+    text='Lean 4 model of every __str__ (expressions, predicates, events with flat disjunctions, scopes, patterns with ms/s time bounds, '
+         'properties, specifications) compared with the implementation token by token; theorems: a disjunction prints flat whatever its nesting, '
+         'own fields print bare. The round trip itself (str -> parse -> equal AST, equal hash, stable second print, injectivity of printing) is '
+         'decided on the implementation for every node kind, widths up to 4 and 27 time bounds over 18 orders of magnitude. Two defects found '
+         'and fixed in /repo (function-call and n-ary disjunction printing).',
+    design_ref='DESIGN.md §6 C06',
+    note='PARTIAL: roundtrip (parse (print e) = e for every e in the image of the parser) is not yet a Lean theorem; it needs parse_complete '
+         'for the fully parenthesised rendering (see C01).',
+    technique='Lean 4 printer model + correspondence + direct round-trip checks on the implementation (proof partial)')
+CLAIMED['C07'] = dict(
+    text='Lean 4 theorems over the model in which every assert / unchecked lookup of hpl.ast is an explicit internal outcome: '
+         'build_err_documented (building from ANY untyped tree fails only with TypeError, sanity error or ValueError), '
+         'predFromExpr_err_documented (the isinstance assertion is unreachable on built trees), parseExpression_documented / '
+         'parsePredicate_documented (the model entry points only fail with documented classes; they are total by construction, with fuel '
+         'linear in the token count). Lark, recursion limits and hidden parser state are outside the model: arbitrary Unicode, token soups, '
+         'edited texts and per-object call histories are run against the implementation and compared with the model accept/reject.',
+    design_ref='DESIGN.md §6 C07',
+    note='PARTIAL by nature: termination and statelessness of the Lark engine are observed, not proved; the property-level entry points\' '
+         'no-internal theorem (needs well-formedness of the parser\'s raw properties) is not yet proved.',
+    technique='Lean 4 proof (error-class analysis of every constructor) + robustness and history correspondence')
+CLAIMED['C18'] = dict(
+    text='Lean 4 model of hpl_file / metadata / hpl_property (buildSpec = mapM buildProperty, duplicate annotation key = syntax error, empty '
+         'file rejected: theorems empty_file_rejected, duplicate_key_rejected, buildSpec_members) tied by correspondence on files of 1..6 '
+         'members with every annotation subset/order and random separators; the statement itself (file = sequence of its members parsed alone, '
+         'same error class as the offending member) is decided on the implementation.',
+    design_ref='DESIGN.md §6 C18',
+    note='PARTIAL: the segmentation lemma (a rendered property is followed only by tokens that cannot extend it) is not yet a theorem.',
+    technique='Lean 4 model + theorems on file assembly (partial) + member-wise correspondence')
+
 NOT_YET = {}
 
 
